@@ -49,7 +49,9 @@ class NNSpacePartitioner:
         data = np.vstack((sample1, sample2))
         D, inverted_indices = np.unique(data, axis=0, return_inverse=True)
         self.D = D
-        v1, v2 = np.array_split(inverted_indices, 2)
+        # rows of the pooled data: first those of sample1, then those of sample2
+        n1 = np.atleast_2d(sample1).shape[0]
+        v1, v2 = inverted_indices[:n1], inverted_indices[n1:]
         v1_onehot = np.zeros(D.shape[0])
         v2_onehot = np.zeros(D.shape[0])
         # XXX - Alternatively, v1_onehot = np.identity(adjacency_matrix.shape[0])[v1] - Anmol
